@@ -380,7 +380,14 @@ def run_impl(spec, timeout=8, connect_only=False, mem_limit=None, mem_location=N
     res["events"] = trace.events
     res["updates"] = [[e[1], e[2]] for e in trace.events if e[0] == "update"]
     res["calls"] = trace.calls
-    res["final"] = [hours(c.time) if isinstance(c, fm.TimeComponent) else None for c in comps]
+    def _final_time(c):
+        # a component whose time was never set (it never saw `_connect`) answers `time` with a ValueError
+        try:
+            return hours(c.time)
+        except Exception:  # noqa
+            return "unset"
+
+    res["final"] = [_final_time(c) if isinstance(c, fm.TimeComponent) else None for c in comps]
     res["status"] = [c.status.name for c in comps]
     res["fin_counts"] = [fin_count.get(id(a), 0) for a in adapters]
     res["n_adapters"] = len(adapters)
